@@ -79,6 +79,21 @@ def classify(tid, clause, case):
     return 'nary-annotation-conflict-forgotten' if ok else clause
 
 
+class UnusualUniverse(Universe):
+    """functions whose annotation A1 and default D2 are ONE object with an unusual == (shared by all functions)"""
+
+    def __init__(self, sigs, mode):
+        Universe.__init__(self, sigs)
+        self.extra = {'A1': absig.Unusual(mode, an=1), 'D2': absig.Unusual(mode, dv=2)}
+
+    def func(self, i, slot):
+        key = (i, slot)
+        f = self._funcs.get(key)
+        if f is None:
+            f = self._funcs[key] = absig.make_func(self.sigs[i], name='f%d' % slot, extra_globals=self.extra)
+        return f
+
+
 def run(check, tier, seed, scratch):
     quick = tier == 'quick'
     DV, AN = [2, 3], [0, 1, 2]
@@ -112,6 +127,15 @@ def run(check, tier, seed, scratch):
         um = Universe(UMs, mode=mode)
         gens.append(alggen.merge_tuples(um, UMs, alggen.random_tuples(n2 // 5, len(UMs), 2, seed + 7), tag='merge2-' + mode))
         gens.append(alggen.embed_tuples(um, UMs, alggen.random_tuples(n2 // 10, len(UMs), 2, seed + 8), tag='embed2-' + mode))
+    # annotation and default VALUES with an unusual == (equal to everything, no truth value, raising, not equal to itself): the SAME object stands
+    # for annotation A1 / default D2 in every input, so whatever == says about it, the contributors agree
+    # (only signatures whose annotations are all A1 and whose defaults are all D2: compared with OTHER values, what == answers is the value's say)
+    UMu = [ps for ps in UM2 if all(p['an'] in (0, 1) and p['dv'] in (0, 2) for p in ps)]
+    UMu = UMu[::3] if quick else UMu
+    for mode in ('anyeq', 'never'):
+        um = UnusualUniverse(UMu, mode)
+        gens.append(alggen.merge_tuples(um, UMu, alggen.random_tuples(n2 // 10, len(UMu), 2, seed + 9), tag='merge2-unusual-' + mode))
+        gens.append(alggen.embed_tuples(um, UMu, alggen.random_tuples(n2 // 20, len(UMu), 2, seed + 10), tag='embed2-unusual-' + mode))
     for op in ('merge', 'embed', 'mask'):
         gens.append(alggen.cex_events(cu, op, [c for o, c in cex if o == op], tag='modelcex-' + op))
     run_trace_leg(check, scratch, 'metadata', alggen.chain(*gens), WANT, classify=classify)
